@@ -110,16 +110,20 @@ func par2Cycle(r *Run, o cycleOpts) {
 			}
 			w.Files[i].Data = d
 			w.Disk.Put(w.Path(i), d)
-			for p := range w.Created {
-				w.Disk.Remove(p)
+			if t.Bool(1, 2, "remove-old-archive") {
+				for p := range w.Created {
+					w.Disk.Remove(p)
+				}
+			} else {
+				// Create runs over the archive files of the old generation
+				r.Probe("recreated-over-existing-set")
 			}
 			cre2 := r.Create2(w, paths, nil, SchedSpec{})
 			r.noPanic(cre2)
 			if cre2.Err != nil {
 				r.Violate("create-failed", "re-Create after an in-place update failed: %v", cre2.Err)
 			}
-			w.Exps = map[string][]int{}
-			w.RecordCreated(r, cre2)
+			w.RecordRecreated(r, cre2, w.Created)
 			r.Probe("updated-and-reprotected-same-setid")
 			break
 		}
